@@ -259,16 +259,29 @@ def plot_cases(draw, tier):
         else:
             ops.append({"op": "setLayout", "to": draw(st.sampled_from(list(sim.STD_LAYOUTS)))})
     return {"cfg": cfg, "P": P, "drawRank": draw_rank, "plot": plot, "ops": ops, "complex": cplx,
+            # the same world built by the restart set-up from a checkpoint folder instead of the fresh set-up
+            "from_file": (not cplx) and draw(st.integers(0, 2)) == 0,
             "layout": draw(st.sampled_from(list(sim.STD_LAYOUTS))), "seed": draw(st.integers(0, 2 ** 16)),
             "eager": draw(st.booleans()), "schedule": draw(gen.schedules(16))}
 
 
-def _plot_rank(ctx, c):
-    from pygyro.initialisation.setups import setupCylindricalGrid
+def _plot_write(ctx, c, folder):
+    g, consts = sim.setup_distrib(ctx.comm, c["cfg"], c["layout"], [1, 1], save=False)
+    g.writeH5Dataset(folder, 0)
+    return True
+
+
+def _plot_rank(ctx, c, folder=None):
+    from pygyro.initialisation.setups import setupCylindricalGrid, setupFromFile
     cfg = c["cfg"]
     try:
-        grid, consts, t = setupCylindricalGrid(layout=c["layout"], comm=ctx.comm, plotThread=c["plot"], drawRank=c["drawRank"],
-                                               dtype=np.complex128 if c.get("complex") else float, **sim.cfg_kwargs(cfg))
+        if folder is not None:
+            grid, consts, t = setupFromFile(folder, comm=ctx.comm, plotThread=c["plot"], drawRank=c["drawRank"],
+                                            layout=c["layout"])
+        else:
+            grid, consts, t = setupCylindricalGrid(layout=c["layout"], comm=ctx.comm, plotThread=c["plot"],
+                                                   drawRank=c["drawRank"],
+                                                   dtype=np.complex128 if c.get("complex") else float, **sim.cfg_kwargs(cfg))
     except RuntimeError as e:
         if "no valid combination of processors" in str(e):
             return ("nogrid", None)
@@ -307,7 +320,16 @@ def plot_pred(c):
     if not any(ncomp % a == 0 and ncomp // a <= m2 for a in range(1, min(ncomp, m1) + 1)):
         # precondition (see plot_cases): no process grid exists for the ranks that hold data
         return {"nontrivial": False, "labels": ["no-process-grid"]}
-    res, w = run_world(P, _plot_rank, (c,), schedule=c["schedule"], eager=c["eager"], key="C06:plotrank")
+    if c.get("from_file"):
+        with sim.scratch_cwd("pgv-c06-") as d:
+            folder = os.path.join(d, "ckpt")
+            os.mkdir(folder)
+            with open(os.path.join(folder, "initParams.json"), "w") as fh:
+                fh.write(sim.constants_json(cfg))
+            run_world(1, _plot_write, (c, folder), key="C06:plotrank:write")
+            res, w = run_world(P, _plot_rank, (c, folder), schedule=c["schedule"], eager=c["eager"], key="C06:plotrank")
+    else:
+        res, w = run_world(P, _plot_rank, (c,), schedule=c["schedule"], eager=c["eager"], key="C06:plotrank")
     kinds = {r[0] for r in res}
     if kinds == {"nogrid"}:
         return {"nontrivial": False, "labels": ["no-process-grid"]}
@@ -367,7 +389,8 @@ def plot_pred(c):
     ncoll = max(len(t) for t in w.traces())
     return {"nontrivial": P >= 2 and ncoll >= 3 and (c["plot"] or empty_owner),
             "labels": ["P=%d" % P, "plot-only-rank" if c["plot"] else "all-compute", "eager" if c["eager"] else "strict",
-                       "complex-grid" if c.get("complex") else "real-grid"],
+                       "complex-grid" if c.get("complex") else "real-grid",
+                       "restart-set-up" if c.get("from_file") else "fresh-set-up"],
             "evals": len(c["ops"])}
 
 
